@@ -27,7 +27,18 @@ claim('C12',
       'Trusted: python ast, E1 type inference, the language-level immutability of str/int/enum values. The heap '
       'abstraction is k-limited (paths of length 6) and field-sensitive only for fresh objects.')
 
+claim('C16',
+      'ownership/mutation analysis (E3c) over the parser entry points + accumulator rule (grown-and-returned '
+      'instance state must be re-initialised before growth) + module/class mutable-state lint, over python ast',
+      'Static rule set: every mutation site reachable from the public DznJsonAst methods and the parse_* functions '
+      'writes a fresh local or instance state allocated per instance in __init__; nothing class-level or '
+      'module-level; no parse function mutates an argument (JSON nodes, namespace-tree nodes); a public method '
+      'that returns instance state it grows resets that state on every path before the first growth. Absence of '
+      'shared mutable state is sufficient for isolation of parses; idempotence of process() is decided by the '
+      'accumulator rule. Equality of results as values is not computed.',
+      'Trusted: python ast, E1 type inference, E3c ownership summaries (k-limited paths).')
+
 _pending = 'check not built yet in this round (design in DESIGN.md section 3); will be claimed when its rules run clean'
-for _p in ['C01', 'C02', 'C03', 'C04', 'C05', 'C06', 'C07', 'C09', 'C10', 'C11', 'C13', 'C14', 'C15', 'C16',
+for _p in ['C01', 'C02', 'C03', 'C04', 'C05', 'C06', 'C07', 'C09', 'C10', 'C11', 'C13', 'C14', 'C15',
            'C17', 'C18', 'C19', 'C20']:
     na(_p, _pending)
